@@ -226,7 +226,8 @@ pub(crate) fn decode_internal<R: Read, S: Borrow<Schema>>(
             ))
         }
         Schema::Fixed(FixedSchema { size, .. }) => {
-            let mut buf = vec![0u8; *size];
+            // The size comes from the schema, which for a file is read from the (untrusted) header
+            let mut buf = vec![0u8; safe_len(*size)?];
             reader
                 .read_exact(&mut buf)
                 .map_err(|e| Details::ReadFixed(e, *size))?;
